@@ -14,10 +14,24 @@ def randomStart (rows cols : Nat) (draws : List Nat) : Option (Cell × List Nat)
     if a < max (rows - 1) 1 ∧ b < max (cols - 1) 1 then some ((((a : Nat) : Int), ((b : Nat) : Int)), rest) else none
   | _ => none
 
+/-- `_random_start_coord(grid_shape, start_coord)` (generators.py:21-40): a given start is used as it is when it lies
+    inside the grid and is REJECTED otherwise (`none` = the `ValueError("start_coord … is outside the grid …")` branch;
+    no draw is consumed); without a given start two numbers are drawn. -/
 def startCoord (rows cols : Nat) (given : Option Cell) (draws : List Nat) : Option (Cell × List Nat) :=
   match given with
-  | some c => some (c, draws)
+  | some c => if inGrid rows cols c then some (c, draws) else none
   | none => randomStart rows cols draws
+
+/-- the given start coordinate is one the repaired `_random_start_coord` raises `ValueError` for -/
+def StartRejected (rows cols : Nat) (given : Option Cell) : Prop :=
+  ∃ c, given = some c ∧ ¬ inGrid rows cols c
+
+instance : Decidable (StartRejected rows cols given) :=
+  match given with
+  | none => isFalse (by rintro ⟨c, h, _⟩; cases h)
+  | some c =>
+    if h : inGrid rows cols c then isFalse (by rintro ⟨c', h', hn⟩; cases h'; exact hn h)
+    else isTrue ⟨c, rfl, h⟩
 
 /-- what `gen_dfs` returns: connection bits + the `generation_meta` fields that depend on the run -/
 structure DfsOut where
